@@ -13,6 +13,7 @@ import Ipv8.C18.LemmasSer
 import Ipv8.C18.LemmasVerifier
 import Ipv8.C18.LemmasBounds
 import Ipv8.C18.LemmasMore
+import Ipv8.C18.LemmasIssuance
 import Mathlib.Data.ZMod.Basic
 
 namespace Ipv8.C18
@@ -508,5 +509,29 @@ example : KeyInts.unserialize ((⟨29, 3, 4, 5, 6⟩ : KeyInts).serialize ++ [9]
   public_key_roundtrip _ _ (packable_of_lt _ (by norm_num)) (packable_of_lt _ (by norm_num))
     (packable_of_lt _ (by norm_num)) (packable_of_lt _ (by norm_num)) (packable_of_lt _ (by norm_num))
     (by decide) (by decide) (by decide) (by decide)
+
+
+/-! ### issuance: outstanding attestation requests (wallet/community.py request_attestation / on_attestation_chunk)
+
+  For EVERY sequence of chunk arrivals (interleaved, re-ordered, duplicated transfers of several attestations requested
+  at the same time) from an honest attester — the chunks sent for the request with global time gt belong to the
+  attestation `att gt` made for that request's public key — every attestation is stored with the fresh key of the
+  request it answers. -/
+theorem attestation_stored_with_its_own_key (reqs : List (Nat × Nat)) (att : Nat → Nat)
+    (evs : List (Nat × Nat × Nat × Nat)) (hon : ∀ e ∈ evs, e.2.1 = att e.1) :
+    ∀ p ∈ (runChunks reqs evs).stored, ∃ gt, (gt, p.2) ∈ reqs ∧ p.1 = att gt :=
+  (reqInv_run reqs att evs hon).bound
+
+/-- the smallest challenge the verifier of the range format can draw is answered honestly by the prover: the two
+    thresholds (`_safe_rndint` and `create_challenge_response`) agree on the boundary -/
+theorem challenge_threshold_consistent (large s t : Int) (hs : verifierAccepts large s = true)
+    (ht : verifierAccepts large t = true) : proverAnswersHonestly large s t = true := by
+  simp only [verifierAccepts, proverAnswersHonestly, Bool.not_eq_true', decide_eq_false_iff_not,
+    Bool.or_eq_false_iff] at *
+  exact ⟨hs, ht⟩
+
+/-- two requests answered in reverse order with interleaved chunks: each attestation gets its own key -/
+example : (runChunks [(1, 100), (2, 200)] [(2, 8, 0, 2), (1, 7, 1, 2), (2, 8, 0, 2), (1, 7, 0, 2), (2, 8, 1, 2)]).stored
+    = [(7, 100), (8, 200)] := by decide
 
 end Ipv8.C18
